@@ -162,6 +162,13 @@ func (p *Peer) pushHeadsForAllDocs(ctx context.Context, col client.Collection, p
 	if err != nil {
 		return err
 	}
+	// The iterator behind the channel is closed once the channel has been read to its end. On an
+	// early return that has to happen before the transaction is discarded (an iterator that is
+	// still open then makes the store panic).
+	defer func() {
+		for range docIDChan { //nolint:revive
+		}
+	}()
 	for docIDResult := range docIDChan {
 		if docIDResult.Err != nil {
 			return docIDResult.Err
